@@ -1,4 +1,6 @@
 import ComposeVerif.Lemmas.Extends
+import ComposeVerif.Lemmas.ExtendsFuel
+import ComposeVerif.Neg.C05
 /-!
 # C05 — extends yields base-then-local override, order-independent, cycle-safe
 
@@ -152,5 +154,121 @@ theorem missing_file_err {E : Env} {order : List String} {dict S svc : KVs} {n r
 /-- a file that does not exist has no services mapping -/
 theorem fileServices_missing {fs : FS} {f : String} (h : fsLookup f fs = none) : fileServices fs f = none := by
   simp [fileServices, h]
+
+/-- **termination.**  With the fuel `fuelFor` (number of distinct `(file, service)` tracker keys + 1)
+the recursion of `applyServiceExtends` never runs out of fuel, whatever the visit order and however
+the files refer to one another: every chain either ends or is cut by the cycle tracker. -/
+theorem extends_terminates {E : Env} (hE : FuelFree E) {order : List String} {dict : KVs}
+    (hord : ∀ S, lookup "services" dict = some (.map S) → Visits order S) :
+    applyExtendsOrd E order dict ≠ .panic fuelMark := by
+  unfold applyExtendsOrd
+  split
+  · simp
+  · rename_i S hS
+    have h := applyAll_no_fuel E hE S order S (KeysSub.self E S)
+      (fun n hn => KeysSub.self E S n (((hord S hS) n).mp hn))
+    split
+    · simp
+    · simp
+    · rename_i s hs
+      intro hp
+      injection hp with hp
+      subst hp
+      exact h hs
+  · simp
+
+/-- **inherited paths are anchored at the base file.**  The file system hands `ApplyExtends` every
+extended file with its relative paths already resolved against *that file's* directory (`resolve f`);
+a service extending a plain service `ref` of file `f` is therefore `extend` of the base *as resolved
+against `f`* and the service's own attributes (which are resolved later, against the project directory). -/
+theorem inherited_paths_anchor {E : Env} {order : List String} {dict out S svc : KVs} {n ref f : String} {e : Val}
+    {resolve : String → KVs → KVs} {raw S' b m : KVs}
+    (hS : lookup "services" dict = some (.map S)) (hnn : NoNull S) (hfs : NoNullFS E) (hord : Visits order S)
+    (h : applyExtendsOrd E order dict = .ok out)
+    (h1 : lookup n S = some (.map svc)) (h2 : lookup "extends" svc = some e)
+    (h3 : parseExtends e = .ok (ref, some f))
+    (hfile : fsLookup f E.fs = some (.ok (resolve f raw) false))
+    (hsv : lookup "services" (resolve f raw) = some (.map S'))
+    (hb : lookup ref S' = some (.map b)) (hbe : lookup "extends" b = none)
+    (hm : E.extend b svc = .ok m) :
+    ∃ R, lookup "services" out = some (.map R) ∧ lookup n R = some (.map (Val.erase "extends" m)) := by
+  obtain ⟨R, hR, hall⟩ := extends_eq_flatten hS hnn hfs hord h
+  obtain ⟨v, hv, hf⟩ := (hall n).2 (by rw [h1]; simp)
+  refine ⟨R, hR, ?_⟩
+  have hfsv : fileServices E.fs f = some S' := by simp [fileServices, hfile, hsv]
+  have hbm : baseMap E S ref (some f) = some S' := by simp [baseMap, hfsv, hb]
+  have : Flat E S n (.map (Val.erase "extends" m)) :=
+    Flat.step h1 h2 h3 hbm (Flat.leaf hb hbe) hm
+  rw [hv, hf.functional this]
+
+/-! ## non-vacuity: the hypotheses of the theorems above are satisfiable by a non-trivial input
+(the two-file model of `Neg/C05.lean`, visited in the order that succeeds) -/
+
+theorem noNull_of_forall {S : KVs} (h : ∀ p ∈ S, p.2 ≠ .null) : NoNull S := by
+  intro n
+  induction S with
+  | nil => simp [Val.lookup]
+  | cons p r ih =>
+    obtain ⟨k, v⟩ := p
+    simp only [Val.lookup]
+    split
+    · intro hc; injection hc with hc; exact h (k, v) (List.mem_cons_self ..) hc
+    · exact ih (fun q hq => h q (List.mem_cons_of_mem _ hq))
+
+def exS : KVs :=
+  [("b", .map [("extends", .str "c"), ("image", .str "ib")]),
+   ("c", .map [("extends", .map [("service", .str "b"), ("file", .str "o.yaml")])])]
+
+example : lookup "services" Neg.dict = some (.map exS) := by
+  simp [Neg.dict, exS, Val.lookup]
+
+example : NoNull exS := noNull_of_forall (by
+  intro p hp
+  simp only [exS, List.mem_cons, List.not_mem_nil, or_false] at hp
+  rcases hp with rfl | rfl <;> simp)
+
+example : NoNullFS Neg.env := by
+  intro f S h
+  obtain ⟨doc, hd, hs⟩ := fileServices_inv h
+  simp only [Neg.env, fsLookup] at hd
+  split at hd
+  · injection hd with hd
+    injection hd with hd _
+    subst hd
+    simp only [Neg.oYaml, Val.lookup, ↓reduceIte, Option.some.injEq, Val.map.injEq] at hs
+    subst hs
+    exact noNull_of_forall (by
+      intro p hp
+      simp only [List.mem_cons, List.not_mem_nil, or_false] at hp
+      rcases hp with rfl | rfl <;> simp)
+  · cases hd
+
+example : Visits ["c", "b"] exS := by
+  intro n
+  simp only [exS, Val.lookup, List.mem_cons, List.not_mem_nil, or_false]
+  by_cases hb : n = "b"
+  · subst hb; simp
+  · by_cases hc : n = "c"
+    · subst hc; simp
+    · simp [hb, hc]
+
+example : ∃ out, applyExtendsOrd Neg.env ["c", "b"] Neg.dict = .ok out := by
+  have h := Neg.order_cb_ok
+  cases hx : applyExtendsOrd Neg.env ["c", "b"] Neg.dict with
+  | ok out => exact ⟨out, rfl⟩
+  | err c => rw [hx] at h; cases h
+  | panic s => rw [hx] at h; cases h
+
+example : FuelFree Neg.env := by
+  constructor
+  · intro b s h; cases h
+  · intro f s h
+    simp only [Neg.env, fsLookup] at h
+    split at h <;> cases h
+
+/-- a cyclic chain exists (a service extending itself), so `cycle_err` is not vacuous -/
+example : Cyclic Neg.env ([("a", .map [("extends", .str "a")])], "a") :=
+  Or.inl (Reach.one ⟨[("extends", .str "a")], .str "a", none, by simp [Val.lookup], by simp [Val.lookup], rfl,
+    by simp [baseMap, Val.lookup]⟩)
 
 end CV.Extends
